@@ -7,10 +7,12 @@ import (
 	"math/big"
 	"math/rand"
 	"reflect"
+	"runtime"
 	"sort"
 	"strings"
 	"sync"
 	"testing"
+	"time"
 
 	"github.com/relab/hotstuff"
 	"github.com/relab/hotstuff/core"
@@ -1816,12 +1818,265 @@ func c18Concurrent(v *verifOut, rounds int) {
 	}
 }
 
+// ---- concurrent writers: the workers of `twins run --output` share one JSONWriter ----
+
+// c18SlowWriter delays every Write a little, so that writers queue up on the JSONWriter's lock.
+type c18SlowWriter struct {
+	mu    sync.Mutex
+	buf   bytes.Buffer
+	delay time.Duration
+}
+
+func (w *c18SlowWriter) Write(p []byte) (int, error) {
+	if w.delay > 0 {
+		time.Sleep(w.delay)
+	}
+	w.mu.Lock()
+	defer w.mu.Unlock()
+	return w.buf.Write(p)
+}
+
+// c18GateWriter blocks inside Write call number blockAt until released (a slow disk, a full pipe).
+type c18GateWriter struct {
+	mu      sync.Mutex
+	buf     bytes.Buffer
+	calls   int
+	blockAt int
+	entered chan struct{}
+	release chan struct{}
+}
+
+func (w *c18GateWriter) Write(p []byte) (int, error) {
+	w.mu.Lock()
+	w.calls++
+	block := w.calls == w.blockAt
+	w.mu.Unlock()
+	if block {
+		close(w.entered)
+		<-w.release
+	}
+	w.mu.Lock()
+	defer w.mu.Unlock()
+	return w.buf.Write(p)
+}
+
+func c18ScenarioKey(s Scenario) string {
+	ks := make([]string, len(s))
+	for i, vw := range s {
+		ks[i] = c18ViewKey(vw)
+	}
+	return strings.Join(ks, "/")
+}
+
+// c18ReadBackCompare reads doc through FromJSON and compares the multiset of scenarios with `written`.
+func c18ReadBackCompare(v *verifOut, doc []byte, written []Scenario, settings Settings, meta map[string]any) (back []Scenario, ok bool) {
+	src, err := FromJSON(bytes.NewReader(doc))
+	if err != nil {
+		meta["error"] = err.Error()
+		v.Oracle(false, "writer.concurrent:unreadable-output", "the document written by concurrent WriteScenario calls is not valid JSON: "+err.Error(), meta)
+		return nil, false
+	}
+	v.Oracle(src.Settings() == settings, "writer.concurrent:settings-changed", fmt.Sprintf("settings %+v came back as %+v", settings, src.Settings()), meta)
+	for {
+		s, err := src.NextScenario()
+		if err == io.EOF {
+			break
+		}
+		if err != nil {
+			meta["error"] = err.Error()
+			v.Oracle(false, "writer.concurrent:unreadable-output", "a scenario written by concurrent WriteScenario calls cannot be decoded: "+err.Error(), meta)
+			return back, false
+		}
+		back = append(back, s)
+	}
+	want, have := map[string]int{}, map[string]int{}
+	for _, s := range written {
+		want[c18ScenarioKey(s)]++
+	}
+	for _, s := range back {
+		have[c18ScenarioKey(s)]++
+	}
+	twice, missing := 0, 0
+	for k, x := range have {
+		if x > want[k] {
+			twice += x - want[k]
+		}
+	}
+	for k, x := range want {
+		if have[k] < x {
+			missing += x - have[k]
+		}
+	}
+	meta["written"], meta["read_back"], meta["read_back_twice_or_foreign"], meta["missing"] = len(written), len(back), twice, missing
+	ok = twice == 0 && missing == 0 && len(back) == len(written)
+	if !ok {
+		v.Oracle(false, "writer.concurrent:read-back-differs-from-written",
+			fmt.Sprintf("%d scenarios written by concurrent WriteScenario calls, %d read back, %d of them twice or never written, %d missing", len(written), len(back), twice, missing), meta)
+	} else {
+		v.Oracle(true, "", "", nil)
+	}
+	return back, ok
+}
+
+func c18ConcurrentWriters(v *verifOut, rounds int) {
+	sets := []c18Set{
+		{Nodes: 1, Twins: 0, Parts: 1, Views: 1}, // 1 scenario
+		{Nodes: 2, Twins: 0, Parts: 1, Views: 1}, // 2
+		{Nodes: 3, Twins: 0, Parts: 1, Views: 1}, // 3
+		{Nodes: 3, Twins: 0, Parts: 1, Views: 2}, // 9
+		{Nodes: 3, Twins: 1, Parts: 2, Views: 1}, // 12
+		{Nodes: 5, Twins: 0, Parts: 1, Views: 3}, // 125
+		{Nodes: 4, Twins: 1, Parts: 2, Views: 2}, // 324
+		{Nodes: 4, Twins: 2, Parts: 3, Views: 1}, // 248, long encodings of different lengths
+	}
+	sw := v.Stream("writers", "drain_mismatches", 8)
+	for _, st := range sets {
+		g, panicked, _ := c18NewGen(st.settings())
+		if panicked {
+			continue
+		}
+		keyIdx := map[string]int{}
+		for i, opt := range g.leadersPartitions {
+			keyIdx[c18ViewKey(opt)] = i
+		}
+		n, views := len(g.leadersPartitions), int(st.Views)
+		announced := g.Remaining()
+		var scens []Scenario
+		for {
+			s, kind := c18Next(g)
+			if kind != c18Scen {
+				break
+			}
+			scens = append(scens, s)
+		}
+		settings := g.Settings()
+		for _, w := range []int{2, 8} {
+			for _, delay := range []time.Duration{0, 15 * time.Microsecond} {
+				failed := false
+				for r := 0; r < rounds && !failed; r++ {
+					if delay > 0 && r >= rounds/3+1 {
+						break
+					}
+					out := &c18SlowWriter{delay: delay}
+					wr, err := ToJSON(settings, out)
+					meta := st.meta()
+					meta["goroutines"], meta["slow_writer"], meta["round"] = w, delay > 0, r
+					if err != nil {
+						v.Oracle(false, "writer.concurrent:error", err.Error(), meta)
+						break
+					}
+					var wg sync.WaitGroup
+					var emu sync.Mutex
+					var werrs []string
+					start := make(chan struct{})
+					for i := 0; i < w; i++ {
+						wg.Add(1)
+						go func(i int) {
+							defer wg.Done()
+							defer func() {
+								if rec := recover(); rec != nil {
+									emu.Lock()
+									werrs = append(werrs, fmt.Sprint("panic: ", rec))
+									emu.Unlock()
+								}
+							}()
+							<-start
+							for j := i; j < len(scens); j += w {
+								if err := wr.WriteScenario(scens[j]); err != nil {
+									emu.Lock()
+									werrs = append(werrs, err.Error())
+									emu.Unlock()
+								}
+							}
+						}(i)
+					}
+					close(start)
+					wg.Wait()
+					if err := wr.Close(); err != nil {
+						werrs = append(werrs, err.Error())
+					}
+					v.Count("concurrent_writes")
+					v.Count(fmt.Sprintf("concurrent_writers_w=%d", w))
+					v.Seen(fmt.Sprintf("writers %v %d %v %d", st, w, delay, r), len(scens) >= w, meta)
+					if len(werrs) > 0 {
+						meta["errors"] = werrs
+						v.Oracle(false, "writer.concurrent:error", fmt.Sprintf("WriteScenario/Close fail or panic with %d concurrent writers: %v", w, werrs), meta)
+						failed = true
+					}
+					back, ok := c18ReadBackCompare(v, out.buf.Bytes(), scens, settings, meta)
+					failed = failed || !ok
+					if r == 0 && delay == 0 {
+						// kernel: sorted, the scenarios read back are the model's (unshuffled) sequence
+						codes := make([]uint64, 0, len(back))
+						for _, s := range back {
+							code, _ := c18Code(s, keyIdx, n, views)
+							codes = append(codes, code)
+						}
+						sort.Slice(codes, func(a, b int) bool { return codes[a] < codes[b] })
+						evs := make([]string, len(codes))
+						for i, code := range codes {
+							evs[i] = fmt.Sprintf("(%s,EvScen %s)", gZ(announced-int64(i)), gN(code))
+						}
+						v.Case(sw, fmt.Sprintf("(%s,%s,None,%s)", gNat(n), gNat(views), gList(evs)), meta)
+					}
+				}
+			}
+		}
+
+		// orchestrated: writer 1 is inside WriteScenario(A), holding the JSONWriter's lock while the underlying
+		// writer is slow; writer 2 calls WriteScenario(B) meanwhile. Both on one P, as with more workers than CPUs.
+		if len(scens) >= 2 {
+			pairs := [][2]int{{0, 1}, {len(scens) - 1, 0}, {len(scens) / 2, len(scens) - 1}}
+			for pi, pr := range pairs {
+				if pr[0] == pr[1] || pi >= v.Pick(2, 3) {
+					continue
+				}
+				for _, blockAt := range []int{2, 3} { // the separator write, the scenario write
+					func() {
+						defer runtime.GOMAXPROCS(runtime.GOMAXPROCS(1))
+						gw := &c18GateWriter{blockAt: blockAt, entered: make(chan struct{}), release: make(chan struct{})}
+						meta := st.meta()
+						meta["orchestrated"], meta["blocked_write_call"], meta["scenario_indices"] = true, blockAt, pr
+						wr, err := ToJSON(settings, gw) // Write call 1: the header
+						if err != nil {
+							v.Oracle(false, "writer.concurrent:error", err.Error(), meta)
+							return
+						}
+						a, b := scens[pr[0]], scens[pr[1]]
+						done := make(chan error, 1)
+						go func() { done <- wr.WriteScenario(a) }()
+						select {
+						case <-gw.entered:
+						case <-time.After(2 * time.Second):
+							v.Note("orchestrated writer case: the gated Write call was not reached")
+							close(gw.release)
+							<-done
+							return
+						}
+						time.AfterFunc(30*time.Millisecond, func() { close(gw.release) })
+						errB := wr.WriteScenario(b) // waits for the lock held by writer 1
+						errA := <-done
+						errC := wr.Close()
+						v.Count("concurrent_writes_orchestrated")
+						v.Seen(fmt.Sprintf("writers-gated %v %v %d", st, pr, blockAt), true, meta)
+						if errA != nil || errB != nil || errC != nil {
+							v.Oracle(false, "writer.concurrent:error", fmt.Sprint(errA, errB, errC), meta)
+						}
+						c18ReadBackCompare(v, gw.buf.Bytes(), []Scenario{a, b}, settings, meta)
+					}()
+				}
+			}
+		}
+	}
+}
+
 // TestVerifC18Race is the concurrent-drain stream alone; the thorough tier runs it under -race.
 func TestVerifC18Race(t *testing.T) {
 	v := verifNew("C18")
 	v.prop = "C18race"
 	c18Concurrent(v, 6)
-	v.Close("concurrent drains of both scenario sources under the race detector")
+	c18ConcurrentWriters(v, 6)
+	v.Close("concurrent drains of both scenario sources and concurrent writers of the JSON writer under the race detector")
 }
 
 func TestVerifC18(t *testing.T) {
@@ -1831,5 +2086,6 @@ func TestVerifC18(t *testing.T) {
 	c18Verdict(v)
 	c18Execute(v)
 	c18Concurrent(v, v.Pick(12, 60))
+	c18ConcurrentWriters(v, v.Pick(12, 60))
 	v.Close("generator: (settings, views, plain/shuffle seed) drains, non-trivial = at least 2 options and 2 views; verdict: sets of commit logs, non-trivial = at least two non-twin replicas one of which committed something")
 }
